@@ -290,7 +290,12 @@ class Interp:
                     h = eng.reg.attrs.get((obj.cls, "set:" + target.attr))
                     if h is not None:
                         return h(self, st, obj, v)
-                    raise Unsupported(f"{self.site(target)}: store to undeclared field {obj.cls}.{target.attr}")
+                    # an attribute no sidecar declares (typically one a refactoring has just introduced): kept in a path-local
+                    # side table keyed by the syntactic reference, valid until the next suspension point (then forgotten:
+                    # a later read is refused, never guessed).  No obligation can talk about it; values flowing through it
+                    # into declared fields are tracked exactly.
+                    st.ghost.setdefault("extra_attrs", {})[(str(z3.simplify(obj.t)), target.attr)] = v
+                    return
                 key, kind = fk
                 self.on_field_write(st, obj, key, v, target)
                 eng.heap_write(st, obj, key, v, kind)
@@ -733,6 +738,7 @@ class Interp:
         if eng.tree != "async":
             return
         old = eng.havoc_heap(st, keys=eng.reg.shared_keys)
+        st.ghost.pop("extra_attrs", None)
         for hook in eng.reg.rely_hooks:
             hook(self, st, old)
         st.trace.append(Event("suspend", {"label": label, "shield": st.shield}, label))
@@ -845,6 +851,9 @@ class Interp:
             h = eng.reg.find_attr_stub(eng, obj.cls, name)
             if h is not None:
                 return h(self, st, obj)
+            xa = st.ghost.get("extra_attrs", {}).get((str(z3.simplify(obj.t)), name))
+            if xa is not None:
+                return xa
             # repository property / class constant (most specific class first)
             for k in eng.reg._mro(eng, obj.cls):
                 ci = eng.repo.cls(eng.tree_name(k))
